@@ -78,6 +78,26 @@ func main() {
 		n++
 		return true
 	})
+	// gate functions: `if verifhook.Skip("<name>") { return }` at the top of listed result-less functions
+	skip := map[string]bool{}
+	for i := 3; i+1 < len(os.Args); i += 2 {
+		if os.Args[i] == "-skip" {
+			skip[os.Args[i+1]] = true
+		}
+	}
+	for _, d := range f.Decls {
+		fd, ok := d.(*ast.FuncDecl)
+		if !ok || fd.Body == nil || !skip[fd.Name.Name] || (fd.Type.Results != nil && len(fd.Type.Results.List) > 0) {
+			continue
+		}
+		gate := &ast.IfStmt{
+			Cond: &ast.CallExpr{Fun: &ast.SelectorExpr{X: ast.NewIdent("verifhook"), Sel: ast.NewIdent("Skip")},
+				Args: []ast.Expr{&ast.BasicLit{Kind: token.STRING, Value: strconv.Quote(fd.Name.Name)}}},
+			Body: &ast.BlockStmt{List: []ast.Stmt{&ast.ReturnStmt{}}},
+		}
+		fd.Body.List = append([]ast.Stmt{gate}, fd.Body.List...)
+		n++
+	}
 	if n > 0 {
 		// add the import
 		spec := &ast.ImportSpec{Path: &ast.BasicLit{Kind: token.STRING, Value: strconv.Quote(hookPath)}}
